@@ -35,11 +35,11 @@ fn self_id() -> libp2p::PeerId {
     peer(0)
 }
 
-struct Ctx {
-    node: crate::node::Node,
-    net: Network,
+pub(crate) struct Ctx {
+    pub(crate) node: crate::node::Node,
+    pub(crate) net: Network,
 }
-fn new_ctx() -> Ctx {
+pub(crate) fn new_ctx() -> Ctx {
     symrt::register_path_reset(shim::reset);
     shim::reset();
     let net = Network::new(self_id());
@@ -51,7 +51,7 @@ fn store_keys(c: &Ctx) -> Vec<Vec<u8>> {
     v.sort();
     v
 }
-fn store_snapshot(c: &Ctx) -> Vec<(Vec<u8>, Vec<u8>)> {
+pub(crate) fn store_snapshot(c: &Ctx) -> Vec<(Vec<u8>, Vec<u8>)> {
     let mut v: Vec<(Vec<u8>, Vec<u8>)> = c.net.inner.store.borrow().iter().map(|(k, r)| (k.to_vec(), r.value.clone())).collect();
     v.sort();
     v
@@ -71,13 +71,13 @@ fn quote(key_no: u8, content: XorName, ts: SystemTime) -> PaymentQuote {
 }
 
 #[derive(Clone, Copy, Debug, PartialEq)]
-enum Kind {
+pub(crate) enum Kind {
     Chunk,
     Scratchpad,
     Transaction,
     Register,
 }
-const KINDS: [Kind; 4] = [Kind::Chunk, Kind::Scratchpad, Kind::Transaction, Kind::Register];
+pub(crate) const KINDS: [Kind; 4] = [Kind::Chunk, Kind::Scratchpad, Kind::Transaction, Kind::Register];
 
 fn the_chunk() -> Chunk {
     Chunk::new(Bytes::from(vec![1u8, 2, 3, 4, 5]))
@@ -95,7 +95,7 @@ fn the_register(owner: u8) -> SignedRegister {
 }
 
 /// (network address, derived key) of the payload of this kind
-fn address_of(kind: Kind) -> NetworkAddress {
+pub(crate) fn address_of(kind: Kind) -> NetworkAddress {
     match kind {
         Kind::Chunk => the_chunk().network_address(),
         Kind::Scratchpad => the_pad(Counter(SymU::konst(1))).network_address(),
@@ -115,7 +115,7 @@ fn paid_record(kind: Kind, key: RecordKey, proof: ProofOfPayment) -> Record {
     .to_vec();
     Record { key, value, publisher: None, expires: None }
 }
-fn unpaid_record(kind: Kind, key: RecordKey) -> Record {
+pub(crate) fn unpaid_record(kind: Kind, key: RecordKey) -> Record {
     let value = match kind {
         Kind::Chunk => try_serialize_record(&the_chunk(), RecordKind::Chunk),
         Kind::Scratchpad => try_serialize_record(&the_pad(Counter(SymU::konst(1))), RecordKind::Scratchpad),
